@@ -2,7 +2,8 @@ import ZenonVerif.Model.Num
 import ZenonVerif.Gen.Consts
 /-
 L1 — raw key/value layers, tombstone encoding, patches.
-Stands for common/db/{memdb,enable_delete,skip_deleted,merged,subdb,patch}.go.
+Stands for common/db/{memdb,enable_delete,merged,subdb,patch}.go. (skip_deleted.go is no longer on any path of
+the store: since 734ff49 deleted entries are skipped by the delete-enabled iterator alone, see `edEntries`.)
 
 Raw values (what memdb / leveldb really hold):   []        = tombstone (deleted)
                                                  0x00 :: v = present with logical value v (v may be empty)
@@ -49,16 +50,15 @@ def mget2 (a b : Raw) (k : Bytes) : Option Bytes :=
   | some v => some v
   | none => rget b k
 
-/-- skipDeletedIterator: keeps entries whose raw value is longer than one byte -/
-def skipDel (s : Raw) : Raw := s.filter (fun e => e.2.length > 1)
-
 /-- enableDeleteDB.Get on a raw answer: empty raw value = not found, else drop the marker byte -/
 def edDecode : Option Bytes → Option Bytes
   | none => none
   | some [] => none
   | some (_ :: v) => some v
 
-/-- logical entries of a raw scan as a consumer sees them: tombstones carry a nil value and are skipped -/
+/-- enableDeleteIterator over a raw scan: `Next` skips the entries whose raw value is empty (a delete is stored as
+    the empty raw value), `Value` drops the marker byte. A present key holding the empty value (raw `[0x00]`) is
+    listed, with the empty value. -/
 def edEntries (s : Raw) : Raw :=
   s.filterMap (fun e => match e.2 with | [] => none | _ :: v => some (e.1, v))
 
